@@ -355,6 +355,126 @@ def full_tree(base, patt=None):
     return tree, names, set()
 
 
+# ---------------------------------------------------------------------------------------------------------------
+# Names matched by the ignore pattern take NO part in a listing: they are not listed and — conf/pygopherd.conf,
+# [handlers.dir.DirHandler] ignorepatt: "If you exclude these files explicitly in ignorepatt, then not only will they
+# not show up, but the handler will also not scan them for links and the like" — nothing in them is read either.
+# The trees below hold, next to visible files and live link files, names the configured pattern matches (dot-files
+# such as the editor backup of a link file, a mail .forward, .cache*; plain names such as gophermap, x~, lib/) whose
+# CONTENT is link-file syntax that would change the listing if it were read: hide blocks, stale titles, numbers,
+# abstracts, stand-alone links.  The oracle is metamorphic and knows nothing of the model: the listing (every field
+# of every entry, in order) must be the same with those names as they are, with their content emptied, and without
+# them.
+IGN_DOT = [".names~", ".Links~", ".x~", ".forward", ".message", ".cache", ".cachefoo", ".hushlogin", ".kermrc",
+           ".notar", ".where", ".abstract", ".old.abstract", ".q.ask", ".q.askme", ".m.3d", ".k.keyboards",
+           ".names.bak", ".names", ".Links", ".x"]
+IGN_PLAIN = ["names~", "Links~", "notes.txt~", "gophermap", "robots.txt", "nohup.out", "veronica.ctl", "old.abstract",
+             "q.ask", "m.3d", "k.keyboards", "links.bak", "lib", "etc", "CVS", "lost+found"]
+IGN_DIRLIKE = {"lib", "etc", "CVS", "lost+found", "bin", "dev"}
+
+
+def stale_blocks(rng, targets, k, serial):
+    """k link-file blocks, each of which changes the listing of the directory when it is read"""
+    out = []
+    for j in range(k):
+        t = rng.choice(targets)
+        what = rng.choice(["hideX", "hide-", "title", "numb", "abstract", "link", "link", "rellink"])
+        if what == "hideX":
+            b = "Type=X\nPath=./%s%s\n" % (t, rng.choice(["", "/"]))
+        elif what == "hide-":
+            b = "Path=./%s\nType=-\n" % t
+        elif what == "title":
+            b = "Path=./%s\nName=%s\n" % (t, rng.choice(["Old title of %s (%d)" % (t, serial), "AAA stale %d" % serial,
+                                                           "zzz stale %d" % serial]))
+        elif what == "numb":
+            b = "Numb=%d\nPath=./%s\n" % (rng.choice([-3, 1, 2, 7]), t)
+        elif what == "abstract":
+            b = "Path=./%s\nAbstract=stale abstract %d\n" % (t, serial)
+        elif what == "link":
+            b = "Name=Old mirror %d.%d\nType=%s\nPath=/pub/%d\nHost=%s\nPort=%s\n%s" % (
+                serial, j, rng.choice("01h7"), serial, rng.choice(["gone.example.org", "+"]), rng.choice(["70", "+", "7070"]),
+                rng.choice(["", "Numb=%d\n" % rng.choice([-1, 1, 5])]))
+        else:
+            b = "Name=Relative %d.%d\nType=0\nPath=elsewhere/%d.txt\n" % (serial, j, serial)
+        out.append(b)
+    return out
+
+
+def top_name(path, pre):
+    """first component below the listed directory of a tree-spec path (None when the path is not below it)"""
+    if pre and not path.startswith(pre):
+        return None
+    return path[len(pre):].split("/", 1)[0]
+
+
+def ignored_parts_tree(rng, base, patt):
+    """-> (tree, names in the directory, names of the directory the pattern matches)"""
+    pre = base.strip("/")
+    pre = pre + "/" if pre else ""
+    base_sel = "" if base == "/" else base
+    dm, _ = names_for_pattern(patt)
+    # (a file called <x>.gophermap is a menu source for the Bucktooth handler: served rendered, not as it is)
+    derived = [m for m in dm if "\n" not in m and m == m.strip() and not ("." + m).endswith(".gophermap")]
+    matched = lambda n: bool(re.search(patt, base_sel + "/" + n))     # noqa: E731
+    dot_c = sorted({n for n in IGN_DOT + [m if m.startswith(".") else "." + m for m in derived] if matched(n)})
+    plain_c = sorted({n for n in IGN_PLAIN + [m for m in derived if not m.startswith(".")] if matched(n)})
+    visible = rng.sample(["a.txt", "b.txt", "c.html", "Zebra", "apple", "sub", "10", "9"], rng.randrange(2, 5))
+    live = rng.sample([".names", ".Links", ".zz"], rng.randrange(0, 3))
+    ign = rng.sample(dot_c, min(len(dot_c), rng.randrange(1, 4))) + rng.sample(plain_c, min(len(plain_c), rng.randrange(0, 3)))
+    names = []
+    for n in visible + live + ign:
+        if n not in names:
+            names.append(n)
+    rng.shuffle(names)
+    tree = [{"path": pre.rstrip("/"), "kind": "dir"}] if pre else []
+    serial = 0
+    for n in names:
+        serial += 1
+        if n == "sub" or n in IGN_DIRLIKE:
+            tree.append({"path": tp(pre + n), "kind": "dir"})
+            tree.append({"path": tp(pre + n + "/inner.txt"), "data": "inner\n"})
+            if n in IGN_DIRLIKE:
+                tree.append({"path": tp(pre + n + "/.names"), "data": td("\n".join(stale_blocks(rng, visible, 2, serial)))})
+        elif n in visible:
+            tree.append({"path": tp(pre + n), "data": "content of %s\n" % n})
+        elif n in live:
+            blocks = []
+            for t in rng.sample(visible, rng.randrange(0, min(3, len(visible)) + 1)):
+                blocks.append(rng.choice(["Path=./%s\nName=Current title of %s\n" % (t, t), "Numb=%d\nPath=./%s\n" % (rng.choice([1, 2, -1]), t),
+                                          "Type=X\nPath=./%s\n" % t]))
+            if rng.random() < 0.5:
+                blocks.append(link_block(rng, serial))
+            tree.append({"path": tp(pre + n), "data": td("\n".join(blocks))})
+        else:
+            blocks = stale_blocks(rng, visible, rng.randrange(1, 4), serial)
+            text = "\n".join(blocks)
+            if rng.random() < 0.25:
+                text = "admin@example.org\n\n" + text          # a first paragraph that is no block at all
+            tree.append({"path": tp(pre + n), "data": td(text)})
+    if rng.random() < 0.3:
+        tree.append({"path": tp(pre + ".cap/" + visible[0]), "data": "Name=Capped %s\nNumb=%d\n" % (visible[0], rng.choice([1, 2, -1]))})
+        names.append(".cap")
+    # `.cap` is the one matched name that takes part by design: .cap/<name> is read for the listed <name>
+    ignored = [n for n in names if matched(n) and n != ".cap"]
+    return tree, names, ignored
+
+
+def ignored_variants(tree, base, ignored):
+    """the same directory with the content of the ignored names emptied, and without them"""
+    pre = base.strip("/")
+    pre = pre + "/" if pre else ""
+    ign = {tp(n) for n in ignored}
+    emptied, removed = [], []
+    for e in tree:
+        top = top_name(e["path"], pre) if e["path"] != pre.rstrip("/") else None
+        if top not in ign:
+            emptied.append(e)
+            removed.append(e)
+        elif e["path"] == pre + top:
+            emptied.append(dict(e, data="") if e.get("kind", "file") == "file" else e)
+    return emptied, removed
+
+
 def d11_tree():
     return [{"path": "d/a.txt", "data": "x\n"}, {"path": "d/b.txt", "data": "y\n"},
             {"path": "d/.one", "data": "Path=./a.txt\nName=First\n"},
@@ -703,6 +823,94 @@ def run(tier):
                                    "history": label, "step": i, "handler": kind, "tree_before": t0, "edit_steps": steps[:i],
                                    "expected_directory_entries": exp, "listed_directory_entries": got,
                                    "outcome": res_.get("exc")}, tag="c07-stale-metadata:" + kind)
+    # ---------------- names the pattern matches take no part: present / emptied / absent ----------------
+    itrees = []
+    ibases = ["/d", "/", "/sub dir", "/deep/er"]
+    for patt in [None] + OTHER_PATTERNS:
+        live = patt or shipped
+        for k in range((10 if thorough else 6) if patt is None else (4 if thorough else 2)):
+            base = ibases[k % len(ibases)]
+            t, names, ignored = ignored_parts_tree(rng, base, live)
+            itrees.append({"tree": t, "dir": base, "names": names, "ignored": ignored, "patt": patt, "live": live})
+        # a directory whose own path an unanchored alternative matches: everything in it is ignored
+        mdirs = [d for d in matching_dirs(live) if not d.endswith("/below")]
+        for d in rng.sample(mdirs, min(len(mdirs), 2 if thorough else 1)):
+            t, names, ignored = ignored_parts_tree(rng, d, live)
+            itrees.append({"tree": t, "dir": d, "names": names, "ignored": ignored, "patt": patt, "live": live})
+    ijobs = []
+    for it in itrees:
+        emptied, removed = ignored_variants(it["tree"], it["dir"], it["ignored"])
+        it["variants"] = [("as they are", it["tree"], it["names"]), ("content emptied", emptied, it["names"]),
+                          ("removed", removed, [n for n in it["names"] if n not in it["ignored"]])]
+        cfg = CONFIG
+        if it["patt"]:
+            cfg = {"handlers.dir.DirHandler": {"cachetime": "0", "ignorepatt": it["patt"]}}
+        for vi, (_, vt, vnames) in enumerate(it["variants"]):
+            n = len(vnames)
+            perms = [list(range(n)), list(reversed(range(n)))]
+            for _ in range(2):
+                p = list(range(n))
+                rng.shuffle(p)
+                perms.append(p)
+            fetch = [x for x in it["ignored"] if x not in IGN_DIRLIKE] if vi == 0 else []
+            ijobs.append({"op": "c07_listing", "tree": vt, "dir": it["dir"], "kinds": ["dir", "umn"], "perms": perms,
+                          "config": cfg, "fetch": fetch})
+    ires = impl_run_parallel(ijobs, chunks=min(len(ijobs), 12))
+    umnlib.check_ok(ires)
+    nign = 0
+    for ti, it in enumerate(itrees):
+        rs = ires[3 * ti:3 * ti + 3]
+        base = "" if it["dir"] == "/" else it["dir"]
+        for vi, (label, vt, vnames) in enumerate(it["variants"]):
+            got_names = sorted(c["name"] for c in rs[vi]["res"]["runs"]["umn"]["world"]["children"])
+            if got_names != sorted(vnames):
+                raise RuntimeError("tree generator and listdir disagree: %r vs %r" % (got_names, sorted(vnames)))
+        for kind in ("dir", "umn"):
+            runs = [r["res"]["runs"][kind] for r in rs]
+            if runs[0]["ignorepatt"] != it["live"]:
+                raise RuntimeError("configured pattern is not the one the generator used: %r" % (runs[0]["ignorepatt"],))
+            # every enumeration order of every variant must give one and the same outcome
+            outcomes = []
+            for vi, run_ in enumerate(runs):
+                for g in run_["groups"]:
+                    nign += len(g["perms"])
+                    outcomes.append((vi, g["result"]))
+            chk.count(("ignored-parts", json.dumps(it["tree"], sort_keys=True), kind), n=len(outcomes),
+                      nontrivial=any(n.startswith(".") for n in it["ignored"]))
+            ref = [o for o in outcomes if o[0] == 2][0][1]          # the directory without the matched names
+            bad = [o for o in outcomes if o[1] != ref]
+            if bad:
+                found = True
+                vi, res_ = bad[0]
+                show = lambda r: r.get("exc") or [(e["selector"], e["name"], e["type"], e["host"], e["port"], e["num"], e["ea"])  # noqa: E731
+                                                  for e in r["entries"]]
+                chk.violation({"what": "names matched by the configured ignore pattern take part in the listing: the listing of "
+                                       "the directory differs from the listing of the same directory without them (they are "
+                                       "listed, or their content is read as link-file blocks)", "handler": kind,
+                               "dir": it["dir"], "ignorepatt": it["live"], "matched_names": it["ignored"],
+                               "tree": it["tree"], "differing_variant": "matched names " + it["variants"][vi][0],
+                               "listing_with_matched_names": show(res_), "listing_without_them": show(ref),
+                               "tree_without_them": it["variants"][2][1]},
+                              tag="c07-ignored-takes-part:" + kind)
+            if ti % 2 == 0 or thorough:
+                lcases.append(umnlib.listing_case(runs[0], kind))
+                lmeta.append(({"tree": it["tree"], "dir": it["dir"]}, kind))
+        datas = {e["path"]: e.get("data", "") for e in it["tree"] if e.get("kind", "file") == "file"}
+        pre_ = it["dir"].strip("/")
+        pre_ = pre_ + "/" if pre_ else ""
+        for n, fr in rs[0]["res"]["fetch"].items():
+            want = datas.get(tp(pre_ + n))
+            if want is None:
+                continue
+            chk.count(("fetch", tp(pre_ + n)))
+            if fr["out"] != want or fr["exc"]:
+                found = True
+                chk.violation({"what": "a name kept out of the listing by the ignore pattern is not retrievable by exact selector",
+                               "selector": base + "/" + n, "tree": it["tree"], "response_latin1": fr["out"][:300],
+                               "exception": fr["exc"]}, tag="c07-not-retrievable")
+    cov["ignored_take_no_part"] = {"trees": len(itrees), "listings": nign,
+                                   "patterns": 1 + len(OTHER_PATTERNS),
+                                   "matched_dot_files": sum(1 for it in itrees for n in it["ignored"] if n.startswith("."))}
     mism_l, err_l, nsh = coq_eval("C07", "k_listing", "Lib.Str Lib.Regex Model.DirEntry Model.UMN Model.Dir Corr.K07",
                                   "chk_listing the_fx", lcases, shard=1, pre=pre, timeout=900)
     cov["correspondence"] = {
@@ -731,7 +939,11 @@ def run(tier):
                    "sub-directories) listed by the real DirHandler and UMNDirHandler under ALL permutations of the "
                    "enumeration order (<= 6 names) or 200 random ones (9-14 names); every outcome compared with the model "
                    "inside Coq; oracle: independent statement of 'visible' (Python re on the configured pattern, dot rule, "
-                   "generator's record of hidden entries), permutation differential, retrieval by exact selector")
+                   "generator's record of hidden entries), permutation differential, retrieval by exact selector; "
+                   "names the pattern matches take no part: directories holding matched dot-files and plain names whose "
+                   "content is link-file syntax (hide / title / number / abstract / link blocks), under the shipped and two "
+                   "other patterns and in a directory that is matched itself, listed as they are, with that content emptied "
+                   "and without those names: every field of every entry must agree")
     chk.assumptions += [
         "list.sort is a stable sort (Props/C07.v stable_sort_unique then fixes its result); cross-checked on real sorts",
         "the handler list is one in which directories and regular files are always taken by some handler and nothing "
